@@ -1,9 +1,9 @@
 #!/bin/sh
-# usage: run.sh <pkgdir relative to repo> <test source under /verif/bounded> <TestName>
+# usage: run.sh <pkgdir relative to repo> <test source under /verif/bounded> <TestName> [build tags]
 # Injects an in-package test through -overlay (nothing is written into the repository) and runs it.
 set -e
 REPO="${GVC_REPO:-/repo}"
-PKG="$1"; SRC="/verif/bounded/$2"; TEST="$3"
+PKG="$1"; SRC="/verif/bounded/$2"; TEST="$3"; TAGS="${4:-}"
 export GOFLAGS=-mod=mod GOPROXY=off GOSUMDB=off GOTOOLCHAIN=local
 TMP=$(mktemp -d)
 trap 'rm -rf "$TMP"' EXIT
@@ -11,7 +11,7 @@ cp "$SRC" "$TMP/zz_gvc_bounded_test.go"
 printf '{"Replace":{"%s/%s/zz_gvc_bounded_test.go":"%s/zz_gvc_bounded_test.go"}}' "$REPO" "$PKG" "$TMP" > "$TMP/ov.json"
 cd "$REPO"
 set +e
-go test -overlay "$TMP/ov.json" -vet=off -count=1 -timeout 600s -v -run "^${TEST}\$" "./$PKG" > "$TMP/out.txt" 2>&1
+go test -tags "$TAGS" -overlay "$TMP/ov.json" -vet=off -count=1 -timeout 600s -v -run "^${TEST}\$" "./$PKG" > "$TMP/out.txt" 2>&1
 rc=$?
 grep -v "^=== RUN\|^=== PAUSE\|^=== CONT" "$TMP/out.txt" | tail -15
 exit $rc
